@@ -413,6 +413,21 @@ class Vec(tuple):
         raise Undecidable("truth value of a vector with more than one element is ambiguous")
 
 
+class Mat(tuple):
+    """A small matrix (tuple of Vec rows) standing for a 2-D numpy array in eval_small: np.isin, elementwise negation, row-wise / column-wise any / all."""
+
+    def reduce(self, how, axis):
+        f = all if how == "all" else any
+        if axis in (1, -1):
+            return Vec(f(r) for r in self)
+        if axis == 0:
+            return Vec(f(col) for col in zip(*self)) if self else Vec(())
+        return f(f(r) for r in self)
+
+    def negate(self):
+        return Mat(Vec(not x for x in r) for r in self)
+
+
 def eval_small(e, env):
     """Evaluate a side-effect-free expression of a small language (names bound in env, constants, set / tuple / list literals and constructors, set algebra and
     set methods, len / all / any / min / max / abs / sorted, arithmetic, comparisons incl. chains and membership, boolean operators, conditional expressions,
@@ -431,6 +446,10 @@ def eval_small(e, env):
         return frozenset(vals) if isinstance(e, ast.Set) else tuple(vals)
     if isinstance(e, ast.UnaryOp):
         v = eval_small(e.operand, env)
+        if isinstance(e.op, ast.Invert) and isinstance(v, Mat):
+            return v.negate()
+        if isinstance(e.op, ast.Invert) and isinstance(v, Vec):
+            return Vec(not x for x in v)
         if isinstance(e.op, ast.Not):
             return not v
         if isinstance(e.op, ast.USub):
@@ -534,6 +553,32 @@ def eval_small(e, env):
             raise
         except Exception:
             raise Undecidable("range")
+    if isinstance(e, ast.Call) and call_name(e) in ("isin", "in1d") and len(e.args) == 2 and all(k.arg in ("invert", "assume_unique") for k in e.keywords):
+        a, b = eval_small(e.args[0], env), eval_small(e.args[1], env)
+        inv = any(k.arg == "invert" and eval_small(k.value, env) for k in e.keywords)
+        try:
+            members = set(b)
+        except TypeError:
+            raise Undecidable("isin of an unhashable collection")
+        if isinstance(a, Mat):
+            return Mat(Vec((x in members) != inv for x in r) for r in a)
+        if isinstance(a, (Vec, tuple)):
+            return Vec((x in members) != inv for x in a)
+        raise Undecidable("isin of a scalar")
+    if isinstance(e, ast.Call) and call_name(e) in ("any", "all") and isinstance(e.func, ast.Attribute) and len(e.args) + len(e.keywords) == 1 and (
+            (e.keywords and e.keywords[0].arg == "axis") or e.args):
+        # row-wise / column-wise reductions: M.all(axis=1), np.any(M, axis=1)
+        base_is_np = isinstance(e.func.value, ast.Name) and e.func.value.id in ("np", "numpy")
+        if not base_is_np:
+            m = eval_small(e.func.value, env)
+            ax = eval_small(e.keywords[0].value if e.keywords else e.args[0], env)
+            if isinstance(m, Mat):
+                return m.reduce(call_name(e), ax)
+    if isinstance(e, ast.Call) and call_name(e) in ("any", "all") and isinstance(e.func, ast.Attribute) and isinstance(e.func.value, ast.Name) and e.func.value.id in ("np", "numpy") \
+            and len(e.args) == 1 and len(e.keywords) == 1 and e.keywords[0].arg == "axis":
+        m = eval_small(e.args[0], env)
+        if isinstance(m, Mat):
+            return m.reduce(call_name(e), eval_small(e.keywords[0].value, env))
     if isinstance(e, ast.Call) and not e.keywords and call_name(e) in ("min", "max", "any", "all", "sum", "prod") and (
             (isinstance(e.func, ast.Attribute) and not e.args and not (isinstance(e.func.value, ast.Name) and e.func.value.id in ("np", "numpy")))
             or (isinstance(e.func, ast.Attribute) and isinstance(e.func.value, ast.Name) and e.func.value.id in ("np", "numpy") and len(e.args) == 1)):
@@ -548,6 +593,13 @@ def eval_small(e, env):
                 return out
             return {"min": min, "max": max, "any": any, "all": all, "sum": sum}[f](tuple(v))
         raise Undecidable("reduction of a non-vector")
+    if isinstance(e, ast.Call) and call_name(e) in ("asarray", "array", "asanyarray") and len(e.args) == 1 and isinstance(e.func, ast.Attribute):
+        return eval_small(e.args[0], env)
+    if isinstance(e, ast.Call) and call_name(e) == "flatnonzero" and len(e.args) == 1 and not e.keywords:
+        v = eval_small(e.args[0], env)
+        if isinstance(v, (Vec, tuple)):
+            return tuple(i for i, x in enumerate(v) if x)
+        raise Undecidable("flatnonzero")
     if isinstance(e, ast.Call) and not e.keywords:
         f = call_name(e)
         if isinstance(e.func, ast.Name) and f in ("set", "frozenset", "tuple", "list", "len", "all", "any", "bool", "sorted", "min", "max", "abs", "sum") and len(e.args) >= 1:
@@ -585,6 +637,16 @@ def eval_small(e, env):
             except Exception:
                 raise Undecidable("string method")
             return tuple(r) if isinstance(r, list) else r
+        if isinstance(e.func, ast.Attribute) and f in ("count", "index") and len(e.args) == 1:
+            recv = eval_small(e.func.value, env)
+            if isinstance(recv, (tuple, str)) and not isinstance(recv, Vec):
+                try:
+                    return getattr(recv, f)(eval_small(e.args[0], env))
+                except Undecidable:
+                    raise
+                except Exception:
+                    raise Undecidable("sequence method")
+            raise Undecidable("count / index on a non-sequence")
         if isinstance(e.func, ast.Attribute) and f in ("issubset", "issuperset", "difference", "intersection", "isdisjoint", "union", "symmetric_difference") and len(e.args) == 1:
             recv = eval_small(e.func.value, env)
             if not isinstance(recv, (set, frozenset)):
